@@ -126,6 +126,17 @@ Lemma skel_matches :
   add_drag_files = expected_add_drag_files /\ reset_drag_files = expected_reset_drag_files.
 Proof. repeat split; reflexivity. Qed.
 
+(* the public UploadFiles API: refused while a transfer runs or a drop is pending, else
+   addDragFiles (EvApiUpload of the model) *)
+Definition expected_upload_files_api : list sk :=
+  [Loop [If "err != nil" [] [Return] []; If "err != nil" [Call "checkPathsReadable" ""] [Return] []];
+   If "filter.IsTransferringFiles()" [Call "IsTransferringFiles" "filter"] [Return] [];
+   If "filter.dragging.Load()" [Call "Load" "filter.dragging"] [Return] [];
+   Call "addDragFiles" "filter"; Return].
+
+Lemma skel_matches_api : upload_files_api = expected_upload_files_api.
+Proof. reflexivity. Qed.
+
 Local Close Scope string_scope.
 
 (* ------------------------------------------------------------------------------------ *)
